@@ -122,6 +122,10 @@ T_Dec == S = None => \A fsk \in {8, 12, 16}, api \in Rates5, ms \in {10, 20} :
            /\ CallPre(R, ms * fsk) /\ CallSafe(R, ms * fsk)
            /\ CallRec(R, ms * fsk).hw = DecOut(fsk, api, ms)
            /\ DecOut(fsk, api, ms) = ms * (api \div 1000)
+           \* the copy path's delay is a whole number of periods of every decoder-side resampler, hence a whole output shift
+           /\ (CopyDelay(fsk * 1000) * Dom(R)) % PerIn(R) = 0
+           /\ (CopyDelay(fsk * 1000) * R.kout) % R.kin = 0
+           /\ InSituShift(fsk * 1000, api) * R.kin = CopyDelay(fsk * 1000) * R.kout
 T_Enc == S = None => \A fsk \in {8, 12, 16}, api \in Rates5 :
            LET R == InitRec(api, fsk * 1000, TRUE)
                n == EncFromInput(fsk, api, 10 * fsk) IN
@@ -134,6 +138,19 @@ T_Setup == S = None => \A oldk \in {8, 12, 16}, newk \in {8, 12, 16}, api \in Ra
            /\ CallPre(T, r.oldSamples) /\ CallSafe(T, r.oldSamples) /\ r.upOut = r.apiSamples      \* fits x_buf_API_fs_Hz exactly
            /\ CallPre(N, r.apiSamples) /\ CallSafe(N, r.apiSamples) /\ r.downOut = r.newSamples     \* = new_buf_samples
            /\ r.oldSamples <= X_BUF_MAX /\ r.newSamples <= X_BUF_MAX                                  \* fits x_buf / x_bufFIX
+
+\* agreement with SilkEncCtl.tla (the owner of the rate-switch control machine): its internal rates are this module's encoder
+\* output rates; every (API rate, internal rate) its ControlBW can select from an Opus-legal API rate is a pair Init accepts;
+\* the two API rates check_control_input admits beyond Opus' five (32000, 44100) are exactly the ones Init would reject
+SE == INSTANCE SilkEncCtl
+T_CtlAgree == S = None =>
+  /\ SE!IntRates = Rates3 /\ Rates5 \subseteq SE!ApiRates
+  /\ \A api \in SE!ApiRates, fs \in SE!IntRates : InitAccepts(api, fs, TRUE) <=> api \in Rates5
+  /\ {api \in SE!ApiRates : ~InitAccepts(api, 16000, TRUE)} = {32000, 44100}
+  /\ \A api \in Rates5, desI \in SE!IntRates, maxI \in SE!IntRates, minI \in SE!IntRates :
+        /\ InitAccepts(api, Min2(desI, api), TRUE)                                  \* ControlBW path "init"
+        /\ InitAccepts(api, Max2(Min2(api, maxI), minI), TRUE)                      \* ControlBW path "clamp"
+        /\ InitAccepts(Min2(desI, api), api, FALSE)                                 \* the temporary resampler of silk_setup_resamplers
 
 \* vacuity guards: must be violated
 W_NoDown == ~(Accepted(S) /\ S.fn = FN_DOWNFIR /\ S.calls = MaxCalls)
